@@ -2,7 +2,7 @@
 (* Generation wrapper for FedVerify.tla.  Room.tla's Next builds the room; in every reachable room one Pick    *)
 (* action chooses a scenario of the configured Kind, evaluates the specification's outcome and the property     *)
 (* invariants, and Emit prints the record.                                                                      *)
-(*   Kind      "state" | "sendjoin" | "chain" | "atstate" | "load"                                             *)
+(*   Kind      "state" | "sendjoin" | "chain" | "atstate" | "load" | "all"                                     *)
 (*   MaxFaults exhaustive mode: every fault subset with at most this many deviations                            *)
 (*   PairFrom  two deviations: at least one of them concerns an event with id >= PairFrom                       *)
 (*   Sim       TRUE (with -simulate): random scenarios with 3..SimFaults deviations, several per simulated room    *)
@@ -29,7 +29,7 @@ DevPairOK(f) ==
     LET X == DOMAIN f IN
     \/ Cardinality(X) <= 1
     \/ /\ \E x \in X : x >= PairFrom
-       /\ \/ \A x \in X : f[x] \in PairKinds \cup {"nothing", "errors"} \cup (IF Kind = "load" THEN {"dup"} ELSE {})
+       /\ \/ \A x \in X : f[x] \in PairKinds \cup {"nothing", "errors"} \cup (IF Kind = "load" THEN {"dup", "sigcopy"} ELSE {})
           \/ \E x \in X, y \in X : f[x] \in {"nonstate", "dup"} /\ f[y] = "badsig"
 
 \* the fault assignments explored for the candidate events R, app(x) being the kinds applicable to x
@@ -74,25 +74,32 @@ PickState ==
        \E pre \in {CheckState(EM, F, [i \in Ids |-> "returns"], AL, SL)} :
           \E p \in ProvChoices(pre.askmax \cap Ids) :
              \E P \in {Ext(p, "returns")} : \E out \in {CheckState(EM, F, P, AL, SL)} :
-             /\ sc' = [Blank EXCEPT !.EM = EM, !.F = F, !.P = P, !.al = AL, !.sl = SL,
+             /\ sc' = [Blank EXCEPT !.kind = "state", !.EM = EM, !.F = F, !.P = P, !.al = AL, !.sl = SL,
                                     !.fail = out.fail, !.auth = out.auth, !.state = out.state,
                                     !.askmin = out.askmin, !.askmax = out.askmax]
              /\ phase' = "done"
 
 (***************************************************************************)
-(* sendjoin: the newest event is a user's own join; the response is the    *)
-(* state before it and the auth chain of that state                        *)
+(* sendjoin: a user's own join; the response is the state before it (or the *)
+(* state with the join itself) and the auth chain of that state            *)
 (***************************************************************************)
-IsOwnJoin(e) == E[e].type = "member" /\ E[e].sender = E[e].skey /\ E[e].membership = "join" /\ e >= 5
+IsOwnJoin(e) == E[e].type = "member" /\ E[e].sender = E[e].skey /\ E[e].membership = "join"
+
+\* the join events verified: the newest event; in the room without free events every own join of the prefix, the
+\* creator's first join included (the joiner is the create sender)
+JoinChoices == {j \in (IF N = Base THEN Ids ELSE {N}) : IsOwnJoin(j)}
+
+\* the state list of the response: the state before the join, or - as some servers answer - the state that
+\* already contains the join event itself
+JoinStates(j) == {StateBefore(j), ApplyTo(E, StateBefore(j), j)}
 
 \* the state list as sent: without the events dropped from it (they stay in the auth list)
 Sent(F, SL) == {x \in SL : F[x] # "statedrop"}
 
 PickSendJoin ==
-    /\ IsOwnJoin(N) = TRUE
-    /\ \E j \in {N} : \E SL0 \in {StateBefore(j)} : \E AL \in {ChainOf(E, SL0)} :
-       \E dis \in {{e \in AL \cup SL0 : CanDisallow(e)}} :
-       \E f \in FaultChoices(AL \cup SL0, LAMBDA x : StateApp(x, SL0, CitedBy(E, AL \cup SL0 \cup {j}), dis)
+    /\ \E j \in JoinChoices : \E SL0 \in JoinStates(j) : \E AL \in {ChainOf(E, SL0)} :
+       \E dis \in {{e \in (AL \cup SL0) \ {j} : CanDisallow(e)}} :
+       \E f \in FaultChoices((AL \cup SL0) \ {j}, LAMBDA x : StateApp(x, SL0, CitedBy(E, AL \cup SL0 \cup {j}), dis)
                                                       \cup (IF x \in AL \cap SL0 THEN {"statedrop"} ELSE {})) :
           \E F \in {Ext(f, NoFault)} : \E EM \in {Mutated(F)} : \E SL \in {Sent(F, SL0)} :
           \E pre \in {CheckState(EM, F, [i \in Ids |-> "returns"], AL, SL)} :
@@ -101,7 +108,7 @@ PickSendJoin ==
                 \E pb \in (IF Sim THEN {RandomElement(ProvKinds)} ELSE ProvKinds) :
                    \E P \in {Ext(p, pb)} : \E out \in {CheckSendJoin(EM, F, P, AL, SL, j)} :
                    /\ (~Sim /\ pb # "returns" => (out.askmax \ pre.askmax) # {})
-                   /\ sc' = [Blank EXCEPT !.EM = EM, !.F = F, !.P = P, !.al = AL, !.sl = SL, !.j = j,
+                   /\ sc' = [Blank EXCEPT !.kind = "sendjoin", !.EM = EM, !.F = F, !.P = P, !.al = AL, !.sl = SL, !.j = j,
                                           !.fail = CheckState(EM, F, P, AL, SL).fail,
                                           !.ok = out.ok, !.auth = out.auth, !.state = out.state,
                                           !.askmin = out.askmin, !.askmax = out.askmax]
@@ -128,7 +135,7 @@ PickChain ==
     \E d \in FaultChoices(R, LAMBDA x : ChainApp(x, e, dis)) :
        \E F \in {FOf(d)} : \E P \in {POf(d)} : \E EM \in {Mutated(F)} :
        \E ok \in {AuthChainOK(EM, F, P, e)} : \E reach \in {CitedBy(EM, ChainReach(EM, P, e))} :
-       /\ sc' = [Blank EXCEPT !.EM = EM, !.F = F, !.P = P, !.e = e, !.ok = ok,
+       /\ sc' = [Blank EXCEPT !.kind = "chain", !.EM = EM, !.F = F, !.P = P, !.e = e, !.ok = ok,
                               !.askmin = IF ok THEN reach ELSE {}, !.askmax = reach]
        /\ phase' = "done"
 
@@ -155,7 +162,7 @@ PickAtState ==
            S == IF k = 0 THEN StateBefore(e) ELSE after[k] IN
        \E fe \in (IF Sim THEN {RandomElement(AtFaults(e))} ELSE AtFaults(e)) :
           \E F \in {Ext([x \in {e} |-> fe], NoFault)} : \E EM \in {Mutated(F)} :
-          /\ sc' = [Blank EXCEPT !.EM = EM, !.F = F, !.e = e, !.s = S, !.av = av, !.pm = pm,
+          /\ sc' = [Blank EXCEPT !.kind = "atstate", !.EM = EM, !.F = F, !.e = e, !.s = S, !.av = av, !.pm = pm,
                                  !.ok = AuthAtState(EM, F, e, S, av, pm),
                                  !.altok = AuthAtStateCited(EM, F, e, S, av, pm)]
           /\ phase' = "done"
@@ -165,9 +172,9 @@ PickAtState ==
 (* provider reports the state before each event (sk = 0) or lags one event *)
 (* behind (sk = 1: the state before the event's newest predecessor)        *)
 (***************************************************************************)
-\* ("dup": the input list carries the event twice)
+\* ("dup": the input list carries the event twice; "sigcopy": twice, one copy with a destroyed signature)
 LoadApp(x, dis) ==
-    {"badsig", "malformed", "dup", "nothing", "errors"}
+    {"badsig", "malformed", "dup", "sigcopy", "nothing", "errors"}
       \cup (IF x \in dis THEN {"disallowed"} ELSE {})
       \cup (IF DomainlessRoomIDs(Ver) /\ E[x].type = "create" THEN {} ELSE {"wrongroom"})
       \cup CreateApp(x)
@@ -179,7 +186,7 @@ PickLoad ==
        \E F \in {FOf(d)} : \E P \in {POf(d)} : \E EM \in {Mutated(F)} :
        \E sb \in {[e \in Ids |-> IF sk = 0 THEN StateBefore(e) ELSE LaggingState(e)]} :
        \E loc \in {LocalOK(EM, F, P)} :
-       /\ sc' = [Blank EXCEPT !.EM = EM, !.F = F, !.P = P, !.sb = sb,
+       /\ sc' = [Blank EXCEPT !.kind = "load", !.EM = EM, !.F = F, !.P = P, !.sb = sb,
                               !.cls = [e \in Ids |-> LoadClass(EM, F, P, loc, e, sb[e])],
                               !.altcls = [e \in Ids |-> LoadClassCited(EM, F, P, loc, e, sb[e])]]
        /\ phase' = "done"
@@ -189,6 +196,8 @@ Pick == CASE Kind = "state" -> PickState
           [] Kind = "chain" -> PickChain
           [] Kind = "atstate" -> PickAtState
           [] Kind = "load" -> PickLoad
+          \* every operation in one run (the per-version families of the quick tier)
+          [] Kind = "all" -> PickState \/ PickSendJoin \/ PickChain \/ PickAtState \/ PickLoad
 
 \* (simulation: once a scenario has been picked in a room further random scenarios are picked in the same room, so
 \* that one trace yields depth - 3 records instead of one; growing the room is the expensive part of a trace)
@@ -206,14 +215,14 @@ Done == phase = "done"
 Out == [fail |-> sc.fail, auth |-> sc.auth, state |-> sc.state]
 
 NothingBadPassedOn ==
-    Done /\ Kind \in {"state", "sendjoin"} => StateSafe(sc.F, sc.al, sc.sl, Out)
+    Done /\ sc.kind \in {"state", "sendjoin"} => StateSafe(sc.F, sc.al, sc.sl, Out)
 NothingGoodLost ==
-    Done /\ Kind = "state" => StateComplete(sc.F, sc.al, sc.sl, Out)
+    Done /\ sc.kind = "state" => StateComplete(sc.F, sc.al, sc.sl, Out)
 WholeResponseFailure ==
-    Done /\ Kind = "state" => StateFailsOn(sc.F, sc.al, sc.sl, Out)
+    Done /\ sc.kind = "state" => StateFailsOn(sc.F, sc.al, sc.sl, Out)
 \* a send_join response is accepted only if the join event is allowed by its auth events and by the returned state
 SendJoinOnlyIfAllowed ==
-    Done /\ Kind = "sendjoin" /\ sc.ok =>
+    Done /\ sc.kind = "sendjoin" /\ sc.ok =>
         /\ ~sc.fail
         /\ Allow(sc.EM, sc.F, sc.state, sc.j)
         /\ Allow(sc.EM, sc.F, {a \in sc.EM[sc.j].auth : a \in sc.auth \cup sc.state \/ sc.P[a] = "returns"}, sc.j)
@@ -221,16 +230,16 @@ SendJoinOnlyIfAllowed ==
 NoFaultAt(x) == sc.F[x] = NoFault
 HonestAccepted ==
     Done /\ (\A x \in Ids : NoFaultAt(x) /\ sc.P[x] = "returns") =>
-        CASE Kind = "state" -> ~sc.fail /\ sc.auth = sc.al /\ sc.state = sc.sl
-          [] Kind = "sendjoin" -> sc.ok /\ sc.auth = sc.al /\ sc.state = sc.sl
-          [] Kind = "chain" -> sc.ok
-          [] Kind = "atstate" -> (sc.pm = "ok" /\ sc.s = StateBefore(sc.e)) => sc.ok
-          [] Kind = "load" -> \A e \in Ids : sc.sb[e] = StateBefore(e) => sc.cls[e] = "ok"
+        CASE sc.kind = "state" -> ~sc.fail /\ sc.auth = sc.al /\ sc.state = sc.sl
+          [] sc.kind = "sendjoin" -> sc.ok /\ sc.auth = sc.al /\ sc.state = sc.sl
+          [] sc.kind = "chain" -> sc.ok
+          [] sc.kind = "atstate" -> (sc.pm = "ok" /\ sc.s = StateBefore(sc.e)) => sc.ok
+          [] sc.kind = "load" -> \A e \in Ids : sc.sb[e] = StateBefore(e) => sc.cls[e] = "ok"
 BadNeverVerifies ==
     Done =>
-        CASE Kind = "chain" -> BadEvent(sc.F, sc.e) => ~sc.ok
-          [] Kind = "atstate" -> (BadEvent(sc.F, sc.e) /\ ~sc.av /\ sc.s = StateBefore(sc.e)) => ~sc.ok
-          [] Kind = "load" -> \A e \in Ids : BadEvent(sc.F, e) => sc.cls[e] \in {"invalid", "sig", "chain"}
+        CASE sc.kind = "chain" -> BadEvent(sc.F, sc.e) => ~sc.ok
+          [] sc.kind = "atstate" -> (BadEvent(sc.F, sc.e) /\ ~sc.av /\ sc.s = StateBefore(sc.e)) => ~sc.ok
+          [] sc.kind = "load" -> \A e \in Ids : BadEvent(sc.F, e) => sc.cls[e] \in {"invalid", "sig", "chain"}
           [] OTHER -> TRUE
 AskBounds == Done => sc.askmin \subseteq sc.askmax
 
